@@ -35,7 +35,7 @@ func VerifFormatAll(ctxt *processors.Context, checkOnly bool) error { return pro
 func VerifProcessLine(line []byte, indent int) ([]byte, int, error) { return processLine(line, indent) }
 
 func VerifUpdateRegex(filePath, ruleId string, chainOffset uint8, newRegex string) {
-	updateRegex(filePath, ruleId, chainOffset, newRegex)
+	updateRegex(filePath, ruleId, chainOffset, newRegex, false)
 }
 
 func VerifReadCurrentRegex(filePath, ruleId string, chainOffset uint8) string {
